@@ -106,7 +106,7 @@ func (vc *FuncVC) inProp(tags []string) bool {
 
 // addOblig records a proof obligation on the current path and then assumes it.
 func (vc *FuncVC) addOblig(st *State, kind, name string, tags []string, goal string) {
-	if goal == "true" {
+	if goal == "true" || !vc.inProp(tags) {
 		return
 	}
 	o := &Oblig{Name: vc.name + "/" + name, Func: vc.name, Kind: kind, Tags: tags, Goal: goal,
